@@ -27,6 +27,22 @@ def T(t, qcases, tcases, qworkers=4, tworkers=14, max_size=100):
                 thorough=dict(workers=tworkers, cases=tcases, max_size=max_size))
 
 
+def TT(t, tcases, tworkers=6, max_size=100):
+    """A rapidcheck target that takes part in the thorough tier only (e.g. the gcc-built variants: a g++ -O2 build of a
+    harness takes 20-50 s, too long for the check that runs on every change)."""
+    return dict(t=t, quick=None, thorough=dict(workers=tworkers, cases=tcases, max_size=max_size))
+
+
+def GCC(name, **kw):
+    """<name>_gcc: the same harness source, library and harness built by gcc / g++ -O2 (flavour gcc-asan)."""
+    base = dict(TARGETS[name])
+    base.pop("portable_encoding", None)
+    base.update(dict(name=name + "_gcc", flavour="gcc-asan"))
+    base.update(kw)
+    TARGETS[name + "_gcc"] = base
+    return name + "_gcc"
+
+
 def F(t, qsecs, tsecs, qworkers=2, tworkers=4):
     return dict(t=t, quick=dict(workers=qworkers, secs=qsecs), thorough=dict(workers=tworkers, secs=tsecs))
 
